@@ -11,6 +11,13 @@ SHAPES = [{"LOGBS": 0, "DESC_SHIFT": 0, "BPG": 8192}, {"LOGBS": 0, "DESC_SHIFT":
           {"LOGBS": 2, "DESC_SHIFT": 0, "BPG": 24568, "_tier": "thorough"},
           {"LOGBS": 0, "DESC_SHIFT": 1, "BPG": 8192, "_tier": "thorough"}]
 
+def INIT_UW(maxg):
+    # initialize.c back edges: .0 "blocks_per_group -= 8" retry (never: see BOUND), .1 "ipg--" (never with <= MAXG groups),
+    # .2 "ipg += 8" (at most twice), .3 last-group trim retry (at most once), .4 per-group loop
+    return ["ext2fs_initialize.0:1", "ext2fs_initialize.1:1", "ext2fs_initialize.2:3", "ext2fs_initialize.3:2",
+            "ext2fs_initialize.4:%d" % (maxg + 1), "main.1:%d" % (maxg + 1), "test_root.0:4",
+            "strcpy.0:24", "strcat.0:24", "strcat.1:24", "strlen.0:8"]
+
 HARNESSES = [
     dict(name="reserve_sb", src="reserve_sb.c",
          extra_src=["lib/ext2fs/closefs.c", "lib/ext2fs/blknum.c"],
@@ -28,6 +35,14 @@ HARNESSES = [
          configs=SHAPES,
          unwind=4, backends=["z3", "kissat", "default"],
          bound="any group / block of any geometry (as reserve_sb)"),
+    dict(name="init_geom", src="init_geom.c",
+         extra_src=["lib/ext2fs/closefs.c", "lib/ext2fs/blknum.c"],
+         funcs=["ext2fs_initialize", "calc_reserved_gdt_blocks", "ext2fs_super_and_bgd_loc2", "ext2fs_bg_has_super",
+                "ext2fs_group_blocks_count", "ext2fs_bg_free_blocks_count_set"],
+         configs=[{"LOGBS": 0, "BPG": 256, "ISIZE": 128, "IS64": 0, "MAXG": 4}],
+         unwind=3, unwindset=INIT_UW(4),
+         backends=["kissat", "default", "z3"],
+         bound="TBD"),
     dict(name="count_used", src="count_used.c", extra_src=BM_SRC,
          funcs=["ext2fs_count_used_blocks", "ext2fs_find_first_set_generic_bmap",
                 "ext2fs_find_first_zero_generic_bmap", "ba_find_first_set", "ba_find_first_zero"],
